@@ -770,7 +770,10 @@ class Engine:
             self.current_func.pop()
         out = []
         for s2, fl in flows:
-            s2.frames.pop()
+            fin = s2.frames.pop()
+            if len(self.current_func) == 0 or self.current_func[-1] is None:
+                pass
+            s2.ghost["final_locals:" + fref.key] = fin
             if fl[0] == "return":
                 out.append((s2, fl[1]))
             elif fl[0] == "raise":
